@@ -8,8 +8,10 @@ package main
 // pooled buffer a call holds is never handed to / touched by another call before its "put".
 
 import (
+	"bufio"
 	"encoding/json"
 	"fmt"
+	"os"
 	"runtime"
 	"unsafe"
 )
@@ -82,6 +84,37 @@ func runSched(a *args) {
 	})
 	defer setHook(nil)
 	nsched := 0
+	// hook events of every 8th schedule are also written as a trace for TLC (spec/TracePool.tla)
+	var tw *bufio.Writer
+	if a.Aux != "" {
+		f, err := os.Create(a.Aux)
+		if err != nil {
+			fatal("%v", err)
+		}
+		defer f.Close()
+		tw = bufio.NewWriterSize(f, 1<<20)
+		defer tw.Flush()
+	}
+	bufIdx := map[uintptr]int{}
+	emit := func(m map[string]interface{}) {
+		for _, k := range []string{"g", "buf"} {
+			if _, ok := m[k]; !ok {
+				m[k] = 0
+			}
+		}
+		if _, ok := m["s"]; !ok {
+			m["s"] = []int{}
+		}
+		if _, ok := m["ok"]; !ok {
+			m["ok"] = false
+		}
+		if _, ok := m["obj"]; !ok {
+			m["obj"] = []string{}
+		}
+		b, _ := json.Marshal(m)
+		tw.Write(b)
+		tw.WriteByte('\n')
+	}
 	readTLCLines(a.In, "@P", func(raw []byte) {
 		var sc schedCase
 		if err := json.Unmarshal(raw, &sc); err != nil {
@@ -188,6 +221,27 @@ func runSched(a *args) {
 			}
 		}
 		col.count("hook events checked for ownership", int64(len(c.events)))
+		if tw != nil && (int64(nsched)+a.Seed)%8 == 0 {
+			emit(map[string]interface{}{"ev": "reset"})
+			for _, e := range c.events {
+				id, ok := bufIdx[e.Buf]
+				if !ok {
+					id = len(bufIdx) + 1
+					bufIdx[e.Buf] = id
+				}
+				emit(map[string]interface{}{"ev": e.Ev, "g": e.G + 1, "buf": id, "s": intsOf(e.S)})
+			}
+			for g := 0; g < n; g++ {
+				var obj []string
+				if results[g].obj != nil {
+					obj = project(results[g].obj, ord20)
+				} else {
+					obj = []string{}
+				}
+				emit(map[string]interface{}{"ev": "ret", "g": g + 1, "s": sc.Inputs[g], "ok": results[g].err == nil && results[g].pan == "", "obj": obj})
+			}
+			col.count("schedules written as hook-event traces for TLC", 1)
+		}
 		if len(col.s.Samples) < 3 {
 			col.sample(map[string]interface{}{"inputs": inputs, "schedule": sc.Sched, "hook_events": len(c.events)})
 		}
